@@ -446,10 +446,11 @@ mod wblock {
         }
         let mut lens: Vec<usize> = if ctx.tier == Tier::Quick { (32..=160).collect() } else { (32..=1024).collect() };
         lens.push(4096);
+        lens.push(65537);
         if ctx.tier == Tier::Thorough {
             lens.push(4095);
             lens.push(65536);
-            lens.push(65537);
+            lens.push(131073);
         }
         let keys = al::t_set(32, 1);
         let nvar = 3 + 8;
@@ -457,7 +458,7 @@ mod wblock {
         par_for(work.len(), rep, |i, r| {
             let (len, k) = work[i];
             for v in 0..nvar {
-                if len > 8192 && v > 3 {
+                if len > 8192 && (v != 3 || (ctx.tier == Tier::Quick && k != 3)) {
                     continue;
                 }
                 r.evaluations += 1;
